@@ -250,7 +250,13 @@ def run(ctx, model_available=True):
             loop.run_until_complete(t.disconnect())
         except Exception as e:  # noqa: BLE001
             failures.append({"kind": "oracle", "sig": "C17:disconnect", "desc": f"disconnect raised {type(e).__name__} (OS-level errors must be absorbed)", "case": {}})
-    for err in (ConnectionRefusedError("refused"), OSError("no route"), TimeoutError("timed out")):
+    import errno as _errno
+    import socket as _socket
+
+    for err in (ConnectionRefusedError("refused"), OSError("no route"), TimeoutError("timed out"),
+                ConnectionRefusedError(_errno.ECONNREFUSED, "Connection refused"), OSError(_errno.ENOENT, "No such file or directory"),
+                _socket.gaierror(-2, "Name or service not known"), _socket.gaierror(-3, "Temporary failure in name resolution"),
+                OSError(524, "unknown to errno.errorcode"), OSError(0, "zero"), OSError(None, "none"), FileNotFoundError(2, "x", "/dev/ttyUSB9")):
         t = make_transport(None, None, open_error=err)
         try:
             loop.run_until_complete(t.connect())
@@ -258,6 +264,32 @@ def run(ctx, model_available=True):
         except Exception as e:  # noqa: BLE001
             if not isinstance(e, ex.TransportError):
                 failures.append({"kind": "oracle", "sig": "C17:connect", "desc": f"failed connection attempt raised {type(e).__name__}", "case": {}})
+    # the stream ends (cleanly between two lines, or inside a line): the read is a read error and
+    # a later disconnect still closes the stream
+    for tail in (b"", b"1;2;1;0;2", b"\xc3"):
+        async def mk2():
+            return asyncio.StreamReader()
+
+        rd = loop.run_until_complete(mk2())
+        w = FakeWriter()
+        t = make_transport(rd, w)
+        loop.run_until_complete(t.connect())
+        rd.feed_data(b"1;2;1;0;2;x\n" + tail)
+        rd.feed_eof()
+        got = []
+        for _ in range(2):
+            try:
+                got.append(loop.run_until_complete(t.read()))
+            except Exception as e:  # noqa: BLE001
+                got.append(classify(e))
+        try:
+            loop.run_until_complete(t.disconnect())
+        except Exception as e:  # noqa: BLE001
+            failures.append({"kind": "oracle", "sig": "C17:disconnect", "desc": f"disconnect after end of stream raised {type(e).__name__}", "case": {}})
+        if got != ["1;2;1;0;2;x\n", "RE"] or w.closed != 1:
+            failures.append({"kind": "oracle", "sig": "C17:eof-then-disconnect",
+                             "desc": f"stream '1;2;1;0;2;x\\n' + {tail!r} then EOF: reads {got}; disconnect afterwards closed the stream {w.closed} time(s) (expected: the line, a read error, closed once)",
+                             "case": {"tail": list(tail)}})
     # the same transport object over several connections: connect, use, disconnect, connect again
     from aiomysensors.transport import StreamTransport
 
